@@ -31,6 +31,13 @@ class AttrsModelCodeGenerator(GenericModelCodeGenerator):
         self.no_meta = not meta
         self.attrs_kwargs = attrs_kwargs or {}
 
+    def convert_field_name(self, name):
+        field_name = super().convert_field_name(name)
+        if field_name == "self":
+            # attrs passes the instance to the generated __init__ as "self"
+            field_name += "_"
+        return field_name
+
     @property
     def decorators(self) -> Tuple[ImportPathList, List[str]]:
         imports, decorators = super().decorators
